@@ -252,6 +252,82 @@ def gen_gate_case(rng, dist, big_portfolio=False):
     return R.case_line(nb, na, pf, now, banks, orcs, ops)
 
 
+def gen_reduce_only_case(rng, dist):
+    """C14 valuation scenario: the borrower's collateral sits (wholly or partly) in a bank that is then set reduce-only;
+    an e-mode entry of the debt bank(s) usually lifts that bank's tag. Probes: borrows around the boundary predicted with
+    the reduce-only deposits counted as nothing, then (sometimes) a withdrawal of the other collateral."""
+    feats = {"pyth": rng.choice([0.0, 0.5, 1.0])}
+    nb = rng.choice([2, 3, 3, 4])
+    now = NOW0 + rng.randrange(0, 10 ** 6)
+    banks, orcs = [], []
+    for i in range(nb):
+        b, o = gen_bank(rng, now, i, feats)
+        banks.append(b)
+        orcs.append(o)
+    idx = list(range(nb))
+    rng.shuffle(idx)
+    ro = idx[0]
+    debt = [idx[1]] + ([idx[2]] if nb >= 4 and rng.random() < 0.5 else [])
+    other = [k for k in idx[1:] if k not in debt][:1]
+    shape = rng.choice(["emode_all", "emode_all", "emode_all", "emode_some", "no_emode"])
+    dist["ro:" + shape] = dist.get("ro:" + shape, 0) + 1
+    if shape != "no_emode":
+        tag = rng.choice([1, 2, 3])
+        banks[ro]["etag"] = tag
+        for j, d in enumerate(debt):
+            if shape == "emode_some" and j == len(debt) - 1 and len(debt) > 1:
+                banks[d]["emode"] = [[tag % 3 + 1, 0, R.fxr(Fraction(9, 10)), R.fxr(Fraction(95, 100))]]
+                continue
+            wi = Fraction(rng.choice([70, 85, 90, 95]), 100)
+            banks[d]["emode"] = [[tag, rng.choice([0, 1]), R.fxr(wi), R.fxr(min(Fraction(99, 100), wi + Fraction(3, 100)))]]
+        for o in other:
+            if rng.random() < 0.5:
+                banks[o]["etag"] = tag
+    na = 3
+    pf = [rng.randrange(2), G.fx(Fraction(rng.randrange(0, 200), 10000)), G.fx(Fraction(rng.randrange(0, 500), 10000))]
+    pred = R.Pred(banks, orcs, na, now)
+    ops = []
+    for d in debt:
+        amt = min(native(banks[d], orcs[d], Fraction(10 ** rng.choice([8, 9]))), 1 << 60)
+        ops.append([1, 0, d, amt, 0])
+        pred.deposit(0, d, amt)
+    amt = min(native(banks[ro], orcs[ro], Fraction(rng.choice([10, 100, 1000, 12345]))), 1 << 58)
+    ops.append([1, 1, ro, amt, 0])
+    pred.deposit(1, ro, amt)
+    for o in other:
+        if rng.random() < 0.6:
+            amt = min(native(banks[o], orcs[o], Fraction(rng.choice([1, 10, 100]))), 1 << 58)
+            ops.append([1, 1, o, amt, 0])
+            pred.deposit(1, o, amt)
+    # some debt taken while the bank was still operational
+    if rng.random() < 0.5:
+        h, _ = pred.init_health(1)
+        for d in (debt[:-1] if len(debt) > 1 else debt):
+            lw = Fraction(banks[d]["lwi"], ONE)
+            a0 = native(banks[d], orcs[d], max(h, Fraction(0)) * Fraction(rng.choice([5, 20, 50]), 100) / lw)
+            if a0 >= 1:
+                ops.append([3, 1, d, a0])
+                pred.borrow(1, d, a0)
+    ops.append([22, ro, 2])
+    pred.banks[ro]["op_state"] = 2
+    d = debt[-1]
+
+    def okb(n):
+        f = n * ONE * pred.cfg[d]["orig"] // ONE
+        hh, _ = pred.init_health(1, {d: (0, pred.lshares(d, n * ONE + f))})
+        return hh >= 0
+    nmax = R.bisect_max(okb, 1 << 60)
+    fam = family(nmax, rng) if nmax >= 1 else []
+    for n in fam:
+        ops.append([3, 1, d, n])
+    if nmax < 1 or rng.random() < 0.3:
+        for n in rng.sample([1, 7, 1000, native(banks[d], orcs[d], Fraction(5))], 2):
+            ops.append([3, 1, d, max(1, n)])
+    if other and other[0] in pred.pos[1] and rng.random() < 0.4:
+        ops.append([2, 1, other[0], rng.choice([1, 3]), 0])
+    return R.case_line(nb, na, pf, now, banks, orcs, ops)
+
+
 def pythify(rng, line):
     """a hops case as a risk case; some Fixed banks become Pyth banks with the same spot price. Fixed-price
     changes of such banks become rewrites of the Pyth account; after a clock advance the Pyth accounts are
@@ -299,7 +375,7 @@ def pythify(rng, line):
 
 # ------------------------------------------------------------------------------------------------
 # C05 scenarios
-def gen_liq_case(rng, dist):
+def gen_liq_case(rng, dist, reduce_only_asset=False):
     feats = {"pyth": rng.choice([0.0, 0.5, 1.0])}
     nb = rng.choice([2, 2, 3, 4])
     now = NOW0 + rng.randrange(0, 10 ** 6)
@@ -349,10 +425,14 @@ def gen_liq_case(rng, dist):
         return hh >= 0
     nmax = R.bisect_max(okb, 1 << 60)
     if nmax < 2:
-        return gen_liq_case(rng, dist)
+        return gen_liq_case(rng, dist, reduce_only_asset)
     bamt = max(1, int(nmax * rng.choice([Fraction(999, 1000), Fraction(95, 100), Fraction(8, 10), Fraction(1)])))
     ops.append([3, 1, lb, bamt])
     pred.borrow(1, lb, bamt)
+    if reduce_only_asset:
+        # the collateral bank goes reduce-only once the debt exists: its deposits still count at maintenance
+        ops.append([22, ab, 2])
+        pred.banks[ab]["op_state"] = 2
     # price move against the borrower (unless "healthy"): the mildest drop of the collateral price that makes
     # the predicted maintenance health negative (sometimes one step further)
     if feat != "healthy":
